@@ -150,6 +150,9 @@ func Worker(prop, tier string, seed uint64, w, W int, start, limit int64) int {
 		sc := e.Generate(NewPRNG(Mix(seed, prop, idx)), tier, idx)
 		o, herr := SafeExecute(e, prop, sc, false)
 		cur.Store(-1)
+		if herr == nil && o.Harness != "" {
+			herr = fmt.Errorf("%s", o.Harness)
+		}
 		if herr != nil {
 			raw, _ := json.Marshal(sc)
 			emit(workerMsg{T: "harness", Idx: idx, Err: herr.Error(), Scenario: raw})
